@@ -64,3 +64,17 @@ Example C11_nonvacuous_tcard : wf_tcard [[5; -7; 0]; [1; 2; 3]]%Z.
 Proof. unfold wf_tcard. cbn. repeat split; try lia; repeat constructor. Qed.
 Example C11_nonvacuous_stacksecret : wf_vstacksecret [(2%N, 11%Z); (0%N, (-4)%Z); (1%N, 0%Z)].
 Proof. unfold wf_vstacksecret. cbn. repeat split; try lia; repeat constructor. Qed.
+
+(* import of a QR-encoded stack into a used stack appends (same template behaviour as C11_stack_import_appends) *)
+Theorem C11_tmcg_stack_import_appends : forall old st, (1 <= length st <= Z.to_nat TMCG_MAX_CARDS)%nat -> Forall wf_tcard st ->
+  import_tstack old (export_tstack st) = Some (old ++ st).
+Proof. exact tstack_import_appends. Qed.
+Print Assumptions C11_tmcg_stack_import_appends.
+
+Example C11_nonvacuous_tsecret : wf_tsecret [[(5, 1); (-7, 0)]; [(0, 0); (62, 1)]]%Z.
+Proof. exact wf_tsecret_example. Qed.
+Example C11_nonvacuous_tstacksecret : wf_tstacksecret [(1%N, [[(5, 1)]; [(9, 0)]]%Z); (0%N, [[(-3, 0)]; [(4, 1)]]%Z)].
+Proof.
+  unfold wf_tstacksecret, wf_tsecret. cbn [length hd fst snd].
+  repeat split; try (vm_compute; lia); try reflexivity; repeat constructor; cbn; try lia; repeat constructor; try (vm_compute; lia).
+Qed.
